@@ -290,7 +290,7 @@ def language_results(ctx, probes=None):
     _results[key] = out
     return out
 
-def rule_language(ctx, rule, probes=None, what='language and rule priority'):
+def rule_language(ctx, rule, probes=None, what='language and rule priority', rej_only=False):
     """C01.R7: the emitted tables denote, for every start condition and beginning-of-line state and over ALL byte strings,
     the same accepted rules as the reference automaton built from the rule text by the E3 model."""
     rep = ctx.rep
@@ -298,6 +298,7 @@ def rule_language(ctx, rule, probes=None, what='language and rule priority'):
     states = 0
     for name, (probe, kind, rej, dis, n, v) in sorted(res.items()):
         if probes is not None and probe not in probes: continue
+        if rej_only and not rej: continue
         states += n
         if isinstance(dis, str):
             rep.broken('%s: language probe %s: %s' % (rule, name, dis))
